@@ -634,8 +634,8 @@ func c02Crash(s *Super, ph Phase, stderr string, partial *PhaseResult) []Phase {
 	s.merged.Counts["server_process_deaths"]++
 	if len(inflight) == 1 {
 		s.merged.Violations = append(s.merged.Violations, Violation{
-			Key:  "decode panic in " + site + ": " + normPanic(pm),
-			What: "with panic recovery disabled the server process died while decoding a request: " + pm,
+			Key:    "decode panic in " + site + ": " + normPanic(pm),
+			What:   "with panic recovery disabled the server process died while decoding a request: " + pm,
 			Detail: map[string]any{"phase": ph.Name, "input": inputs[0], "stderr_tail": tail(stderr, 3000)},
 		})
 	}
